@@ -1,2 +1,7 @@
 //! Shared instruments.
+pub mod density;
+pub mod linalg;
 pub mod num;
+pub mod rig;
+pub mod script_rng;
+pub mod spy;
